@@ -84,8 +84,36 @@ def dec(tok: str) -> str:
 
 # --------------------------------------------------------------------------- wrapper histories
 
-def wrapper_history(ctx: Ctx, rng, problems):
-    """load / target / export-free histories on PinchProblem versus the service; also fed to the model."""
+def write_csv_bundle(problem, d: Path):
+    """streams.csv / utilities.csv as the template has them: row 1 names, row 2 units, data from row 3."""
+    d.mkdir(exist_ok=True)
+    with (d / "streams.csv").open("w", newline="") as f:
+        w = csv.writer(f)
+        w.writerow(["Zone", "Name", "Supply T", "Target T", "Heat flow", "dT cont", "HTC", "Loc", "Index"])
+        w.writerow(["", "", "degC", "degC", "kW", "degC", "kW/m2/K", "", ""])
+        for s in problem["streams"]:
+            w.writerow([s["zone"], s["name"], s["t_supply"], s["t_target"], s["heat_flow"], s["dt_cont"], s["htc"], "", ""])
+    with (d / "utilities.csv").open("w", newline="") as f:
+        w = csv.writer(f)
+        w.writerow(["Name", "Type", "Supply T", "Target T", "dT cont", "Price", "HTC", "Heat flow"])
+        w.writerow(["", "", "degC", "degC", "degC", "$/MWh", "kW/m2/K", "kW"])
+        for u in problem["utilities"]:
+            w.writerow([u["name"], u["type"], u["t_supply"], _cell(u["t_target"]), _cell(u["dt_cont"]), _cell(u["price"]), u["htc"], u["heat_flow"]])
+
+
+FIXED_HISTORIES = [   # minimised witnesses of past defects, run first on every run (C16-stale-cache, C16-stale-project-name)
+    ["load 0 m", "target", "load 1 m", "target"],
+    ["load 0 f 0", "target", "load 1 m", "target", "load 0 p", "target", "load 1 f 2", "target", "target"],
+]
+
+
+def wrapper_history(ctx: Ctx, rng, problems, tmp: Path, script=None):
+    """load / target histories on ONE PinchProblem versus the service; also fed to the model.
+
+    Sources of a load: a validated model (`m`), a JSON file whose stem names the project (`f k` -> F<k>.json),
+    a pair of CSV files (`p`).  What target() returns is identified by (which problem, which project name):
+    the problem by the values of its records, the project by the root of the record names.  A file-less
+    source has the default project name, whatever was loaded before."""
     from OpenPinch.classes.pinch_problem import PinchProblem
     from OpenPinch.lib.schema import TargetInput
     ops = []
@@ -93,31 +121,57 @@ def wrapper_history(ctx: Ctx, rng, problems):
     loaded = None
     outs = []
     fails = []
-    key = lambda res: [(t.name.split("/", 1)[1] if "/" in t.name else t.name, round(t.Qh, 6), round(t.Qc, 6), round(t.Qr, 6)) for t in res.targets]
+    vals = lambda res: [(t.name.split("/", 1)[1] if "/" in t.name else "", round(t.Qh, 6), round(t.Qc, 6), round(t.Qr, 6)) for t in res.targets]
+    root = lambda res: sorted({t.name.split("/", 1)[0] for t in res.targets})
     ref = {}
-    for k in range(rng.randint(2, 7)):
-        if loaded is None or rng.random() < 0.45:
-            i = rng.randrange(len(problems))
-            pp.load(TargetInput.model_validate(problems[i]))
-            loaded = i
-            ops.append(f"load {i}")
+
+    def ref_of(j):
+        if j not in ref:
+            out, _ = P.run_service(json.loads(json.dumps(problems[j])))
+            ref[j] = vals(out)
+        return ref[j]
+    steps = script if script is not None else [None] * rng.randint(2, 7)
+    for step in steps:
+        if step is not None:
+            tok = step.split()
+            do_load = tok[0] == "load"
+            i = int(tok[1]) if do_load else None
+            r = {"m": 0.0, "f": 0.6, "p": 0.9}[tok[2]] if do_load else None
+        else:
+            do_load = loaded is None or rng.random() < 0.45
+            i = rng.randrange(len(problems)) if do_load else None
+            r = rng.random() if do_load else None
+        if do_load:
+            if r < 0.5:
+                pp.load(TargetInput.model_validate(json.loads(json.dumps(problems[i]))))
+                loaded = (i, "Untitled"); ops.append(f"load {i} m")
+            elif r < 0.85:
+                kf = int(tok[3]) if step is not None else rng.randrange(3)
+                fp = tmp / f"F{kf}.json"
+                fp.write_text(json.dumps(problems[i]))
+                pp.load(fp)
+                loaded = (i, f"F{kf}"); ops.append(f"load {i} f {kf}")
+            else:
+                d = tmp / f"csv{i}"
+                write_csv_bundle(problems[i], d)
+                pp.load((d / "streams.csv", d / "utilities.csv"))
+                loaded = (i, "Untitled"); ops.append(f"load {i} p")
             outs.append("ok")
         else:
             res = pp.target()
             ops.append("target")
-            if loaded not in ref:
-                out, _ = P.run_service(problems[loaded])
-                ref[loaded] = key(out)
-            got = key(res)
-            which = next((j for j, v in ref.items() if v == got), None)
-            if which is None:
-                for j in range(len(problems)):
-                    if j not in ref:
-                        o, _ = P.run_service(problems[j]); ref[j] = key(o)
-                which = next((j for j, v in ref.items() if v == got), None)
-            outs.append(f"result {which}")
-            if got != ref[loaded]:
-                fails.append(("target_returns_loaded_problem", f"history {ops}: target() returned the result of problem {which}, loaded is {loaded}", "stale_result_cache"))
+            got = vals(res)
+            which = next((j for j in range(len(problems)) if ref_of(j) == got), None)
+            mz = getattr(pp, "_master_zone", None)
+            nm = getattr(mz, "name", None) or "?"           # the root zone is named after the project
+            if not any(t.name.split("/", 1)[0] == nm for t in res.targets):
+                nm = "?"
+            outs.append(f"result {which} {'U' if nm == 'Untitled' else nm[1:] if nm[:1] == 'F' and nm[1:].isdigit() else '?'}")
+            if got != ref_of(loaded[0]):
+                fails.append(("target_returns_loaded_problem", f"history {ops}: target() returned the result of problem {which}, loaded is {loaded[0]}", "stale_result_cache"))
+            elif nm != loaded[1]:
+                fails.append(("target_names_loaded_project", f"history {ops}: records are named under project {nm!r}; the source loaded last gives {loaded[1]!r} "
+                              "(what a fresh PinchProblem reports for it)", "stale_project_name"))
     return ops, outs, fails
 
 
@@ -173,24 +227,28 @@ def channels(problem, tmp: Path):
                 rec[k] = {"value": rec[k], "units": u}
     run("value_with_unit", lambda: pinch_analysis_service(vu, "Project"))
     run("wrapper_from_json", lambda: PinchProblem.from_json(json.loads(json.dumps(problem))).target())
+    # a dictionary whose lists hold already validated records, targeted repeatedly, and the same model object twice:
+    # every run is the same problem (the caller's records must not have been rewritten by an earlier run)
+    from OpenPinch.lib.schema import StreamSchema, UtilitySchema
+    plain = json.loads(json.dumps(problem))
+    recs = dict(plain)
+    try:
+        recs["streams"] = [StreamSchema.model_validate(x) for x in plain["streams"]]
+        recs["utilities"] = [UtilitySchema.model_validate(x) for x in plain["utilities"]]
+    except Exception as e:  # noqa: BLE001
+        res["dict_of_records"] = e
+    else:
+        run("dict_of_records", lambda: pinch_analysis_service(recs, "Project"))
+        run("dict_of_records_again", lambda: pinch_analysis_service(recs, "Project"))
+        run("dict_of_records_wrapper", lambda: PinchProblem.from_json(recs).target())
+    mdl = TargetInput.model_validate(json.loads(json.dumps(problem)))
+    run("model_object_first", lambda: pinch_analysis_service(mdl, "Project"))
+    run("model_object_again", lambda: pinch_analysis_service(mdl, "Project"))
     jp = tmp / "Project.json"
     jp.write_text(json.dumps(problem))
     run("json_file", lambda: PinchProblem(jp).target())
-    # CSV bundle: row 1 names, row 2 units, data from row 3
     d = tmp / "Project"
-    d.mkdir(exist_ok=True)
-    with (d / "streams.csv").open("w", newline="") as f:
-        w = csv.writer(f)
-        w.writerow(["Zone", "Name", "Supply T", "Target T", "Heat flow", "dT cont", "HTC", "Loc", "Index"])
-        w.writerow(["", "", "degC", "degC", "kW", "degC", "kW/m2/K", "", ""])
-        for s in problem["streams"]:
-            w.writerow([s["zone"], s["name"], s["t_supply"], s["t_target"], s["heat_flow"], s["dt_cont"], s["htc"], "", ""])
-    with (d / "utilities.csv").open("w", newline="") as f:
-        w = csv.writer(f)
-        w.writerow(["Name", "Type", "Supply T", "Target T", "dT cont", "Price", "HTC", "Heat flow"])
-        w.writerow(["", "", "degC", "degC", "degC", "$/MWh", "kW/m2/K", "kW"])
-        for u in problem["utilities"]:
-            w.writerow([u["name"], u["type"], u["t_supply"], _cell(u["t_target"]), _cell(u["dt_cont"]), _cell(u["price"]), u["htc"], u["heat_flow"]])
+    write_csv_bundle(problem, d)
     def csv_dir():
         pp = PinchProblem(); pp.load(d); return pp.target()
     def csv_tuple():
@@ -264,9 +322,17 @@ def run(ctx: Ctx):
                 ctx.traces_validated += 1
     # wrapper histories
     hist_lines, hist_out = [], []
-    for _ in range(ctx.n(40, 600)):
+    scripts = list(FIXED_HISTORIES) + [None] * ctx.n(40, 600)
+    for script in scripts:
         probs = [simple_problem(ctx.rng) for _ in range(ctx.rng.choice([2, 3]))]
-        ops, outs, fails = wrapper_history(ctx, ctx.rng, probs)
+        tmp = Path(tempfile.mkdtemp(prefix="opv_c16h_"))
+        try:
+            ops, outs, fails = wrapper_history(ctx, ctx.rng, probs, tmp, script)
+        finally:
+            shutil.rmtree(tmp, ignore_errors=True)
+        for o in ops:
+            if o.startswith("load"):
+                ctx.dist["history_source_" + o.split()[2]] += 1
         case = {"kind": "history", "ops": ops, "problems": probs}
         ctx.count({"kind": "history", "ops": ops}, sum(1 for o in ops if o.startswith("load")) >= 2, ["wrapper_history"])
         for clause, detail, cause in fails:
